@@ -2,7 +2,7 @@
    Property theorems only: each is closed by `exact <lemma>`; Print Assumptions must report a closed term. *)
 From Coq Require Import List Bool Arith.
 Import ListNotations.
-Require Import PonyV.Model.C03Bexp PonyV.Proofs.C03Checker PonyV.Model.C03Decomp PonyV.Model.C03Family PonyV.Model.C03Family3 PonyV.Proofs.C03Roundtrip PonyV.Proofs.C03RoundtripCnf PonyV.Proofs.C03RoundtripIf PonyV.Proofs.C03Roundtrip3 PonyV.Proofs.C03Roundtrip3Run PonyV.Proofs.C03Roundtrip3Dual PonyV.Proofs.C03CompileSound
+Require Import PonyV.Model.C03Bexp PonyV.Proofs.C03Checker PonyV.Model.C03Decomp PonyV.Model.C03Family PonyV.Model.C03Family3 PonyV.Proofs.C03Roundtrip PonyV.Proofs.C03RoundtripCnf PonyV.Proofs.C03RoundtripIf PonyV.Proofs.C03Roundtrip3 PonyV.Proofs.C03Roundtrip3Run PonyV.Proofs.C03Roundtrip3Dual PonyV.Proofs.C03Roundtrip3All PonyV.Proofs.C03CompileSound
                PonyV.Model.C03Cache PonyV.Proofs.C03CacheProofs PonyV.Gen.C03CacheKey.
 
 (* The oracle the harness uses to judge every output of the real decompiler: if the truth-table checker accepts a pair
@@ -126,6 +126,26 @@ Example C03_andor_depth3_dual_nonvacuous :
     And [Or [And [Atom 0; Not (Atom 1)]; Atom 2]; Atom 3;
          Or [Atom 4; And [Cmp false (Atom 5) (Atom 6); IsNone false (Atom 7); Atom 8]; And [Atom 9; Atom 10]]].
 Proof. reflexivity. Qed.
+
+(* C03_andor_depth_le3: the two depth-3 theorems over a predicate on expressions.  `alt_depth o d e` (Model/C03Family3.v): e is
+   a literal, or d > 0 and e is an `or` (o = true) / `and` (o = false) of at least two operands each of which is
+   `alt_depth (negb o) (d - 1)`.  Every ALTERNATING and/or nesting of depth <= 3 over literals, of any widths, written as the
+   filter of a generator decompiles to exactly itself.  (Not in the class: a group directly under a group of the same kind,
+   `a and (b and c)`, which the decompiler flattens; depth >= 4, where some shapes come back re-associated and depth 5
+   contains the refuted input.) *)
+Theorem C03_andor_depth_le3 : forall o e, alt_depth o 3 e = true -> decompile PFilter e = Some e.
+Proof. exact roundtrip_depth3. Qed.
+Print Assumptions C03_andor_depth_le3.
+
+Example C03_andor_depth_le3_nonvacuous :
+  alt_depth true 3 (Or [And [Or [Atom 0; Not (Atom 1)]; Atom 2]; Atom 3;
+                        And [Atom 4; Or [Cmp false (Atom 5) (Atom 6); IsNone false (Atom 7); Atom 8]; Or [Atom 9; Atom 10]]]) = true /\
+  alt_depth false 3 (And [Or [And [Atom 0; Not (Atom 1)]; Atom 2]; Atom 3]) = true /\
+  alt_depth false 3 (And [Atom 0; And [Atom 1; Atom 2]]) = false /\
+  (* the refuted 6-operand input has depth 5 *)
+  alt_depth false 4 (And [Atom 0; Or [And [Or [Atom 1; And [Atom 2; Atom 3]]; Atom 4]; Atom 5]]) = false /\
+  alt_depth false 5 (And [Atom 0; Or [And [Or [Atom 1; And [Atom 2; Atom 3]]; Atom 4]; Atom 5]]) = true.
+Proof. repeat split; reflexivity. Qed.
 
 (* A family with a conditional expression, in ELEMENT position: (xa if t1 and ... and tn else xb for x in T), any n >= 1,
    comes back as exactly itself (partial + full process_target of JUMP_FORWARD, classification by jump sense after
